@@ -16,7 +16,7 @@
                         the bound B only excludes `pos + n` overflowing usize inside SliceReader::check_eor. *)
 From VBase Require Import MachInt.
 From VModel Require Import ReadAdapter.
-From VProofs Require Import ReadAdapterSim ReadAdapterInv ReadAdapterRefine ReadAdapterCons.
+From VProofs Require Import ReadAdapterSim ReadAdapterInv ReadAdapterRefine ReadAdapterCons ReadAdapterCursor.
 Local Open Scope nat_scope.
 
 (* Refinement, all 15 operations (read_u8 peek_u8 read_bool read_u16/32/64/128 read_usize read_slice read_array read_vec
@@ -57,6 +57,39 @@ Theorem C13_slice_reader_is_list_semantics : forall utf8 B o t u, 16 <= B -> op_
   slice_rel B (snd (step slice_reader utf8 o t)) (snd (step spec_reader utf8 o u)).
 Proof. exact slice_step_spec. Qed.
 Print Assumptions C13_slice_reader_is_list_semantics.
+
+(* Coverage round: the third reader implementation, `impl ByteReader for std::io::Cursor`, as a party of the equivalence.
+   cursor_reader: the state machine {buffer, position: u64}; c_init bytes pos = Cursor::new(bytes) after set_position(pos), where
+   pos is ANY u64 (also beyond the end of the buffer); cursor_rel t u: u = buf[min(pos, len)..], len and pos are u64 values.
+   Every call (check_eor and has_more_bytes included: Cursor's answers are exact) is the list semantics on the unread bytes;
+   no bound on the length arguments is needed (there is no `pos + n` that could overflow). *)
+Theorem C13_cursor_is_list_semantics : forall utf8 o t u, cursor_rel t u ->
+  fst (step cursor_reader utf8 o t) = fst (step spec_reader utf8 o u) /\
+  cursor_rel (snd (step cursor_reader utf8 o t)) (snd (step spec_reader utf8 o u)).
+Proof. exact cursor_step_spec. Qed.
+Print Assumptions C13_cursor_is_list_semantics.
+
+(* Cursor == SliceReader on every operation sequence (all 15 operations): the same values and the same errors at the same
+   points, from any start position; the slice reader is given the bytes from that position on.  B as in the first theorem. *)
+Theorem C13_cursor_equals_slice_reader : forall utf8 bytes pos ops B,
+  16 <= B -> Forall (fun o => op_arg o <= B) ops ->
+  (Z.of_nat (length bytes) + Z.of_nat B < 2 ^ 64)%Z -> (Z.of_nat pos < 2 ^ 64)%Z ->
+  run cursor_reader utf8 ops (c_init bytes pos) = run slice_reader utf8 ops (s_init (skipn pos bytes)).
+Proof. exact cursor_equals_slice. Qed.
+Print Assumptions C13_cursor_equals_slice_reader.
+
+Theorem C13_cursor_never_panics : forall utf8 ops bytes pos,
+  (Z.of_nat (length bytes) < 2 ^ 64)%Z -> (Z.of_nat pos < 2 ^ 64)%Z ->
+  Forall (fun r => aborts r = false) (run cursor_reader utf8 ops (c_init bytes pos)).
+Proof. exact cursor_never_aborts. Qed.
+Print Assumptions C13_cursor_never_panics.
+
+Example C13_cursor_beyond_end_witness :
+  run cursor_reader utf8_valid [HasMore; CheckEor 0; CheckEor 1; PeekU8; ReadU8; ReadSlice 0; ReadSlice 1; ReadArray 0; ReadU16]
+      (c_init [1; 2; 3]%Z 7) =
+  [Ok (VBool false); Ok VUnit; Err EOF; Err EOF; Err EOF; Ok (VBytes []); Err EOF; Ok (VBytes []); Err EOF].
+Proof. exact cursor_beyond_end_example. Qed.
+Print Assumptions C13_cursor_beyond_end_witness.
 
 (* Per call, on any adapter state satisfying the invariant (sticky source): the result and the new unread bytes are the list
    semantics of the unread bytes; the invariant is kept. *)
